@@ -21,6 +21,7 @@ Eval(e, regs) ==
   CASE e.e = "c" -> e.v
     [] e.e = "r" -> regs[e.r]
     [] e.e = "t" -> TupV([i \in 1..Len(e.fs) |-> Eval(e.fs[i], regs)])
+    [] e.e = "f" -> regs[e.r].fs[e.i + 1]
     [] e.e = "hb" -> [k |-> "bin", b |-> e.b]      \* a binary built at run time (a heap slot in the code)
 
 (* does a value carry a binary (which lives on an executor heap in the code)? *)
@@ -61,7 +62,9 @@ EvalSrc(s, regs) ==
 
 IsRecv(s) == s.k = "recv"
 RecvIndex(srcs, i) == Cardinality({j \in 1..(i - 1) : IsRecv(srcs[j])})   \* 0-based, as in the code
-Tag(v) == IF v.k = "tup" /\ v.fs # <<>> /\ v.fs[1].k = "bin" THEN "btup" ELSE v.k
+Tag(v) == IF v.k = "tup" /\ v.fs # <<>> /\ v.fs[1].k = "bin" THEN "btup"
+          ELSE IF v.k = "tup" /\ v.fs # <<>> /\ v.fs[1].k = "pid" THEN "req"
+          ELSE v.k
 Compatible(m, s) == \E i \in 1..Len(s.tys) : s.tys[i] = Tag(m)            \* check_message_compatible
 FilterAccepts(m, s) == \E i \in 1..Len(s.acc) : s.acc[i] = m               \* the filter body's verdict
 
